@@ -124,6 +124,26 @@ ODD_VALUES = {20: (1, 2), 21: {3: 'x', None: 1.5}, 22: 2.5, 23: [[1, (2, 3)], {'
 ODD_BASE = 1000
 
 
+# values the DB can not store (json raises TypeError): value id >= 30.  `save_success` refuses them: the execution is a
+# task failure ("saving success ... can not be saved"), the record is removed, consumers do not run.
+UNSAVEABLE = {30: 'set', 31: 'bytes', 32: 'path'}
+
+
+def unsaveable_value(vid):
+    import pathlib
+    return {30: {1, 2}, 31: b'ab', 32: pathlib.PurePosixPath('f0')}[vid]
+
+
+def plan_saveable(pl):
+    """can the values / result the action returns under this plan be stored?"""
+    if (pl or {}).get('vid') in UNSAVEABLE:
+        return False
+    dl = (pl or {}).get('deliver')
+    if dl is not None and dl.get('kind') in (None, 'dict') and dl.get('pathobj') and dl.get('deps'):
+        return False
+    return True
+
+
 def _jnorm(x):
     return json.loads(json.dumps(x))
 
@@ -135,12 +155,16 @@ def vals_of(vid):
     """the dict a producer's action returns for value id `vid`"""
     if vid in ODD_VALUES:
         return {'k0': ODD_VALUES[vid], 'k1': vid}
+    if vid in UNSAVEABLE:
+        return {'k0': unsaveable_value(vid), 'k1': vid}
     if vid % 3 == 0:
         return {'k0': vid}
     return {'k0': vid, 'k1': vid + 50}
 
 
 def uv_of(vid):
+    if vid in UNSAVEABLE:
+        return [[0, ODD_BASE + vid], [1, vid]]
     if vid in ODD_VALUES:
         return [[0, ODD_BASE + vid], [1, vid]]
     return sorted([int(k[1:]), v] for k, v in vals_of(vid).items())
@@ -259,7 +283,7 @@ class World(statuslib.World):
                 if dl.get('junk'):
                     out['junk'] = 1              # keys update_deps does not know are ignored (first in the dict)
                     out['setup'] = ['nosuchtask']
-                out['file_dep'] = [fname(p) for p in dl.get('deps', [])]
+                out['file_dep'] = [world.pathobj(fname(p), dl.get('pathobj')) for p in dl.get('deps', [])]
                 out['task_dep'] = [tname(u) for u in dl.get('tasks', [])]
                 if dl.get('uptodate') is not None:
                     out['uptodate'] = [bool(b) for b in dl['uptodate']]
@@ -737,7 +761,7 @@ def translate(case, obs):
                     if oc in ('ok', 'fail', 'save-missing'):
                         tr.n_exec[tid] = tr.n_exec.get(tid, 0) + 1
                         tr.completes.append((len(tr.model), i, tid, oc))
-                        tr.model.append(['complete', tid, oc != 'fail', writes, res])
+                        tr.model.append(['complete', tid, oc != 'fail', writes, res, plan_saveable(pl)])
                         tr.mon.append(['exec', tid, oc == 'ok', always, writes, res])
                     elif oc in ('unmet', 'getargs-error') or oc.startswith('other:'):
                         both(['unmet', tid])
@@ -763,7 +787,8 @@ def translate(case, obs):
                         tr.model.append(['select', tid, always])
                         probes.append(len(tr.model))
                         tr.model.append(['complete', tid, pl.get('ok', True),
-                                         [[q, size_of(cid), cid] for q, cid, _ in pl.get('writes', [])], pl.get('vid')])
+                                         [[q, size_of(cid), cid] for q, cid, _ in pl.get('writes', [])], pl.get('vid'),
+                                         plan_saveable(pl)])
                 tr.crash = (i, o['crash'], probes, o.get('stderr'))
                 break
             # calc_dep trace predicates
@@ -872,6 +897,16 @@ def _judge(case, obs, tr, msteps, psteps, vsteps, v):
         if msteps[idx].get('crashed') and (stop_at is None or i < stop_at):
             stop_at = i
             v.count('skipped:model-crash-or-ambiguous')
+    for idx, i, t, oc in tr.completes:
+        if stop_at is not None and i >= stop_at:
+            break
+        pl = (obs[i].get('plan') or {}).get(str(t)) or {}
+        if not plan_saveable(pl):
+            v.count('execution-whose-values-can-not-be-saved:' + (UNSAVEABLE.get(pl.get('vid')) or 'calc result with pathlib file_dep'))
+        if bool(msteps[idx].get('saved')) != (oc == 'ok'):
+            v.divergence = v.divergence or (i, 'task %s: implementation reports %s, model %s' % (
+                tname(t), oc, 'recorded the execution' if msteps[idx].get('saved') else 'did not record the execution '
+                '(action failed, dependency missing or values that can not be saved)'), oc, msteps[idx].get('saved'))
     if tr.crash:
         ci, exc, probes, stderr = tr.crash
         predicted = any(msteps[j].get('status') == 'crash' or msteps[j].get('ambiguous') or msteps[j].get('crashed')
@@ -883,11 +918,20 @@ def _judge(case, obs, tr, msteps, psteps, vsteps, v):
             v.count('skipped:crash-predicted-by-model')
         else:
             tail = (stderr or '').strip().split('\n')[-3:]
+            full = stderr or ''
             if any('error_msg.format(dep)' in l for l in tail):
-                # get_status formats the "Dependent file ... does not exist" message twice (open finding)
+                # get_status formatting the "Dependent file ... does not exist" message twice (F-C10-missing-dep-brace-name)
                 v.violations.append({'kind': 'crash', 'at_op': ci, 'exception': exc, 'stderr': tail,
                                      'fstyle': int(case.get('fstyle') or 0),
                                      'what': 'doit died with a %s traceback while reporting a missing file_dep: %s' % (exc, tail)})
+            elif 'JSON serializable' in full or 'JSONDecodeError' in full or 'json.decoder' in full or 'json/decoder' in full:
+                # values that can not be stored reached the DB (F-C10-unserialisable-values): the run dies when the DB
+                # is written, or a later run dies when it is read
+                v.violations.append({'kind': 'crash', 'at_op': ci, 'exception': exc, 'stderr': tail,
+                                     'what': 'doit died with a %s traceback while %s the dependency DB -- an execution whose '
+                                             'values can not be stored was recorded as a success (its consumers were given a '
+                                             'value no later run can deliver): %s'
+                                             % (exc, 'reading' if 'decode' in full.lower() and 'JSON serializable' not in full else 'writing', tail)})
             else:
                 v.divergence = v.divergence or (ci, 'doit died with %s; the model does not crash there' % exc, tail, 'no crash')
     first_exec = {}
@@ -1129,7 +1173,7 @@ def render(case):
                 if not pl.get('ok', True):
                     bits.append('FAILS')
                 if pl.get('vid') is not None:
-                    bits.append('returns %s' % vals_of(pl['vid']))
+                    bits.append('returns %s%s' % (vals_of(pl['vid']), ' (can not be stored)' if pl['vid'] in UNSAVEABLE else ''))
                 if pl.get('deliver') is not None:
                     dl = pl['deliver']
                     if dl.get('kind') in ('str', 'none'):
@@ -1137,7 +1181,8 @@ def render(case):
                     else:
                         bits.append('delivers file_dep %s task_dep %s%s%s' % (
                             [fname(p) for p in dl.get('deps', [])], [tname(u) for u in dl.get('tasks', [])],
-                            ' uptodate %s' % dl['uptodate'] if dl.get('uptodate') is not None else '',
+                            (' as pathlib objects (can not be stored)' if dl.get('pathobj') else '') +
+                            (' uptodate %s' % dl['uptodate'] if dl.get('uptodate') is not None else ''),
                             ' + unknown keys junk, setup' if dl.get('junk') else ''))
                 if bits:
                     acts.append('%s %s' % (id_to_name(int(key)), ' '.join(bits)))
@@ -1287,6 +1332,8 @@ def gen_case(rng, parallel=False):
             if r == 'producer':
                 plan[str(t)] = {'ok': rng.random() < 0.9, 'writes': [],
                                 'vid': rng.choice(sorted(ODD_VALUES)) if rng.random() < 0.3 else rng.choice([None, 1, 2, 3, 4, 5, 6, 7])}
+                if rng.random() < 0.08:
+                    plan[str(t)]['vid'] = rng.choice(sorted(UNSAVEABLE))
             elif r == 'group':
                 for j in range(d['subs']):
                     plan[str(sub_id(t, j))] = {'ok': rng.random() < 0.93, 'writes': [],
@@ -1310,6 +1357,8 @@ def gen_case(rng, parallel=False):
                         dl['uptodate'] = [rng.random() < 0.5]
                     if rng.random() < 0.3:
                         dl['junk'] = True
+                    if dl['deps'] and rng.random() < 0.1:
+                        dl['pathobj'] = rng.choice(['path', 'pure'])      # the result can not be stored
                 plan[str(t)] = {'ok': rng.random() < 0.92, 'writes': [], 'deliver': dl}
             else:
                 writes = [[p, rng.randrange(10, 16)] for p in d['targets'] if rng.random() < 0.85]
